@@ -9,7 +9,7 @@
 //!   when ok: "signed_len" (chars), "signed_sym": lexing of the signed file into
 //!            {"k":"c"|"G"|"T"|"S","at":char offset,"len":chars[,"h":hex]}  (fixed literals, no judgement),
 //!            "signed_after","valid_after",
-//!            "edits_tried": number of single-character substitutions tried (every position x up to 3 other chars),
+//!            "edits_tried": number of single-character substitutions tried (every position x 4 other chars),
 //!            "still_valid": [{"pos":char offset,"cp":replacement}] = every substitution after which
 //!                           is_valid_signature still returned true (wherever it is; TLA+ decides if that is allowed)
 use std::io::{BufRead, Write};
@@ -99,10 +99,12 @@ fn main() {
                 let mut tried = 0u32;
                 let mut still = vec![];
                 for p in 0..chars.len() {
-                    let cands: Vec<char> = ['#', 'a', '0', 'Z', ' ']
+                    // replacements of several kinds (blank, line break, punctuation, letter, digit), so that an
+                    // implementation that normalises white space / case before hashing is noticed
+                    let cands: Vec<char> = [' ', '\n', '#', 'a', '0', 'Z']
                         .into_iter()
                         .filter(|c| *c != chars[p])
-                        .take(3)
+                        .take(4)
                         .collect();
                     for c in cands {
                         let mut e = chars.clone();
